@@ -39,6 +39,7 @@ def c05(tier, seed):
 
 
 ENGINES = {
+    "heap": ({"C15", "C16"}, "alloc-feature operations under a recording allocator; panic and allocation-failure injection; small-stack children"),
     "collect": ({"C07"}, "collecting forms vs scripted sources (poll/hint logs)"),
     "history": ({"C03"}, "random chained ownership histories over a typed pool vs shadow Vec model + ledger"),
     "seqops": ({"C09"}, "Lengthen/Shorten/Split/Concat/Remove vs Vec, exhaustive N<=8 + boundary shapes"),
@@ -111,7 +112,78 @@ def c07(tier, seed):
     ]
 
 
+HEAP15 = "u8,u64,Tok,ZTok,[u64;3]"
+HEAP16 = "u8,u64,Tok,ZTok,(),[u64;3]"
+
+
+def c15(tier, seed):
+    if tier == "quick":
+        return [
+            Run("heap", "debug", ["prop=C15", "--flavours", HEAP15], shards=4),
+            Run("heap", "miri", ["prop=C15", "--flavours", "HeapTok,u8,ZTok", "--maxn", "3"], shards=16, label="heap/miri(N<=3)"),
+        ]
+    return [
+        Run("heap", "debug", ["prop=C15", "--flavours", HEAP15], shards=8),
+        Run("heap", "release", ["prop=C15", "--flavours", HEAP15], shards=8),
+        Run("heap", "miri", ["prop=C15", "--flavours", "HeapTok,u8,u64,ZTok,[u64;3]", "--maxn", "17"], shards=32, label="heap/miri(N<=17)"),
+        Run("heap", "asan", ["prop=C15", "--flavours", "HeapTok,u8,u64", "--part", "nobig"], shards=8),
+    ]
+
+
+def c16(tier, seed):
+    if tier == "quick":
+        return [
+            Run("heap", "debug", ["prop=C16", "--flavours", HEAP16], shards=8),
+            Run("heap", "miri", ["prop=C16", "--flavours", "HeapTok,u64,ZTok", "--maxn", "2"], shards=16, label="heap/miri(N<=2)"),
+        ]
+    return [
+        Run("heap", "debug", ["prop=C16", "--flavours", HEAP16], shards=16),
+        Run("heap", "release", ["prop=C16", "--flavours", HEAP16], shards=16),
+        Run("heap", "miri", ["prop=C16", "--flavours", "HeapTok,u8,u64,ZTok,(),[u64;3]", "--maxn", "8"], shards=32, label="heap/miri(N<=8)"),
+        Run("heap", "asan", ["prop=C16", "--flavours", "HeapTok,u64,ZTok"], shards=8),
+    ]
+
+
 SPECS = {
+    "C15": dict(
+        engine="heap",
+        technique="recording-global-allocator monitor (block identity, release, new-block size) + Vec/slice reference model + ledger; small-stack child processes for multi-MiB boxed constructors; Miri/ASan",
+        level="exploration",
+        level_text=("Every heap conversion is run for N in {0,1,2,3,8,16,17,100,1024} x source lengths {0, N-1, N, N+1} x Vecs with and without "
+                    "spare capacity x five element flavours inside a recording-allocator window: contents and order must match the source, "
+                    "Ok exactly when the length is N, rejected sources dropped once (ledger); for the documented O(1) conversions the block "
+                    "address must be unchanged, the block not released and no new block >= the payload requested. The boxed constructors build "
+                    "8 MiB (16 MiB in thorough) arrays on a 256 KiB-stack thread in debug-build child processes and must finish with the right checksum."),
+        level_note="Trusted: the recording allocator (harness/src/alloc.rs), std's System allocator underneath, child-process exit status. Gates on block identity, not on allocator call counts.",
+        runs=c15,
+        min_cases=800,
+        must_count=["o1.same_block_observed", "c15.bigstack_children", "alloc.window_allocs"],
+        exhaustive={"quick": True, "thorough": True},
+        rule=("one case = (operation incl. source-length delta and spare capacity, flavour, N) or one small-stack child (operation, MiB); "
+              "the grid is enumerated completely; non-trivial = N > 0 (a real heap block is involved)"),
+        explanation="allocator event log per case audited online; O(1) verdicts from (address before, address after, releases, new block sizes)",
+        assumptions=["N from the lattice above; 8/16 MiB for the stack test", "thread stack 256 KiB, debug build (the hostile configuration)"],
+    ),
+    "C16": dict(
+        engine="heap",
+        technique="recording-global-allocator monitor with two fault dimensions: panic at every closure/iterator call, and an injected allocation failure at every allocation request (child process per failure); Miri/ASan/LSan",
+        level="fault_enumeration",
+        level_text=("Every alloc-feature operation x N in {0,1,2,3,8,17} x six element flavours runs in an allocator window audited against: no "
+                    "zero-size request, every release names a live block with its original size and alignment, nothing live once all values are "
+                    "gone. Then a panic is injected at every closure / Clone / Default / Iterator::next call index (audit repeated after unwinding), "
+                    "and for every allocation request index k the operation makes, a child process is run in which request k returns null: it "
+                    "must finish or abort through handle_alloc_error ('memory allocation of N bytes failed'); a null dereference, UB-check "
+                    "abort or SIGSEGV is a violation."),
+        level_note="Trusted: the recording allocator; debug-build UB checks and signal/exit status of children; Miri (zero-size alloc, layout mismatch, leaks are first-class errors there).",
+        runs=c16,
+        min_cases=2000,
+        must_count=["c16.panic_cases", "c16.allocfail_children", "c16.allocfail_std_abort"],
+        exhaustive={"quick": True, "thorough": True},
+        rule=("one case = (operation, flavour, N, fault) with fault in {none, panic at call k (every k), allocation request k fails (every k)}; "
+              "non-trivial = N > 0 or a fault was injected"),
+        explanation="allocator log audit per case; child verdicts by exit status + stderr text",
+        assumptions=["N in {0,1,2,3,8,17}", "allocation-failure children are not run under Miri (no process spawning there)"],
+    ),
     "C07": dict(
         engine="collect",
         technique="scripted-source monitor: recording iterators (poll log, hint log) over the grid N x count x hint policy x fused x panic index; oracle from what the script delivered; ledger for pulled items",
